@@ -1115,3 +1115,13 @@ End Cache.
 
 Lemma zltb_strict_weak : StrictWeak Z.ltb.
 Proof. constructor; intros; lia. Qed.
+
+(* ================================================================== a departure from the property: "empty cache" is read as
+   "cache not computed".  After initialize_filtration(true) on a complex whose simplices all have the value +infinity the
+   cache is empty, and filtration_simplex_range() recomputes it WITHOUT ignoring: the ignored simplices are listed. *)
+Lemma all_ignored_range_refuted : exists (K : cplx Z), K <> [] /\ (forall p, In p K -> snd p = 1000%Z) /\
+  snd (op_initialize_filtration Z.ltb 1000%Z true (K, [])) = [] /\
+  snd (filtration_simplex_range Z.ltb 1000%Z (op_initialize_filtration Z.ltb 1000%Z true (K, []))) = [([0%Z], Some 1000%Z)].
+Proof.
+  exists [([0%Z], 1000%Z)]. split; [discriminate|]. split; [intros p [H|[]]; subst; reflexivity|]. split; vm_compute; reflexivity.
+Qed.
